@@ -34,6 +34,16 @@ func vfSessionMethods() []vfMethod {
 			s.SetReadDeadline(vrt.Now().Add(30 * time.Millisecond))
 			s.Read(make([]byte, 64))
 		}},
+		{"Read/small-buffer", func(p *vfPair, s *UDPSession, l *Listener, k int) {
+			// buffers smaller than the chunks the core delivers: the carried-over tail (bufptr) is shared between readers;
+			// the thread ends right after its last Read, so nothing it does later orders that Read's accesses
+			for i := 0; i < 3; i++ {
+				s.SetReadDeadline(vrt.Now().Add(30 * time.Millisecond))
+				if _, err := s.Read(make([]byte, 7)); err != nil {
+					return
+				}
+			}
+		}},
 		{"Write", func(p *vfPair, s *UDPSession, l *Listener, k int) {
 			s.SetWriteDeadline(vrt.Now().Add(30 * time.Millisecond))
 			s.Write([]byte("method-write"))
@@ -91,8 +101,8 @@ func vfListenerMethods() []vfMethod {
 }
 
 func vfC14(c *hx.Ctx) {
-	c.Rule("HB-race mode (ThreadSanitizer on the happens-before relation of each explored schedule): every supported public method of UDPSession (26) and Listener (9) is called twice, each call on its own thread, " +
-		"on the dialled and on the accepted session, against live bidirectional traffic and a second client on the same listener; cipher class {none, CFB, AEAD} x FEC {off, on} x {no Close, Close of client / accepted session / listener at chosen instants}; " +
+	c.Rule("HB-race mode (ThreadSanitizer on the happens-before relation of each explored schedule): every supported public method of UDPSession (26, Read also with buffers smaller than a chunk) and Listener (9) is called twice, each call on its own thread, " +
+		"on the dialled and on the accepted session, against live bidirectional traffic and a second client on the same listener; cipher class {none, AES-CFB, AEAD, pure-Go CFB with 16- and 8-byte blocks, salsa20} x FEC {off, on} x {no Close, Close of client / accepted session / listener at chosen instants}; " +
 		"default schedule plus every single scheduling deviation. Non-trivial = an execution with a deviation or a Close.")
 	c.Assume("ThreadSanitizer keeps four shadow cells per 8-byte word: races on byte-granular buffers touched many times (cipher feedback buffers) can be missed; those are decided by interleaving exploration in C08")
 	c.Assume("deprecated SetStreamMode / SetDUP are excluded, as the property says")
@@ -102,7 +112,8 @@ func vfC14(c *hx.Ctx) {
 		ciph   string
 		ds, ps int
 	}
-	classes := []class{{"", 0, 0}, {"aes-128", 0, 0}, {"aes-gcm", 0, 0}, {"", 2, 1}, {"aes-128", 3, 2}, {"aes-gcm", 1, 1}}
+	classes := []class{{"", 0, 0}, {"aes-128", 0, 0}, {"aes-gcm", 0, 0}, {"", 2, 1}, {"aes-128", 3, 2}, {"aes-gcm", 1, 1},
+		{"twofish", 0, 0}, {"blowfish", 2, 1}, {"salsa20", 0, 0}} // pure-Go block ciphers (16- and 8-byte blocks): their feedback buffers are visible to ThreadSanitizer, AES assembly is not
 	closes := []string{"none", "client", "server", "listener"}
 	n := len(classes) * len(closes)
 	per := (n + max(c.Of, 1) - 1) / max(c.Of, 1)
